@@ -64,6 +64,9 @@ type RunLog struct {
 	FgPoints, ForcedMoves, FreeMoves, Timeouts, LockWaitsBG, LockWaitsFG int
 	Broken                                                               string
 	StepFg                                                               []int // foreground gate index at which each step began
+	// a workload step failed although nothing crashed (the node was started from a cleanly closed
+	// directory and the continuous node accepted the same blocks)
+	FailedStep, Failure string
 }
 
 // spawnHook turns every goroutine the store starts into one whose panic is recorded instead of
@@ -220,16 +223,26 @@ func (w *world) runHistory(hist History, sched Sched, order int) *RunLog {
 	rl.StepFg = append(rl.StepFg, 0)
 	n, err := openNode(dir)
 	if err != nil {
+		rl.FailedStep, rl.Failure = "open", "the cleanly closed base image does not open: "+err.Error()
+		rl.Ops = s.Log
 		s.End()
-		panic("harness: the base image does not open: " + err.Error())
+		return rl
 	}
 	s.GatePoint("idle")
 	for _, st := range hist.Steps {
 		rl.StepFg = append(rl.StepFg, s.FgPoints())
 		s.Mark("step " + st)
-		w.step(s, dir, &n, st)
+		if msg := protect(func() { w.step(s, dir, &n, st) }); msg != "" {
+			rl.FailedStep, rl.Failure = st, msg
+			break
+		}
 		// the node is idle until the next message arrives: under S0 the writer drains here
 		s.GatePoint("idle")
+	}
+	if rl.Failure != "" {
+		rl.Ops = s.Log
+		s.End()
+		return rl
 	}
 	rl.StepFg = append(rl.StepFg, s.FgPoints())
 	s.Mark("step final-drain")
